@@ -45,6 +45,9 @@ def encoded_invocation(r) -> dict:
     switches = [r.choice(SWITCHES) for _ in range(r.choice([0, 0, 1, 2, 3]))]
     esw = enc_switch(r)
     payload = r.choice(PAYLOADS) if r.random() < 0.7 else "".join(chr(r.choice([r.randint(32, 126), r.randint(160, 255), r.randint(0x400, 0x4FF)])) for _ in range(r.randint(1, 20)))
+    if r.random() < 0.03:
+        # an encoded command longer than cmd.exe's 8191 byte command line / than 64 KiB
+        payload = " ".join(r.choice(["Write-Host", "zq", "lorem", "$x=1;", "ipsum"]) for _ in range(r.choice([300, 1500, 8000])))
     b64 = base64.b64encode(payload.encode("utf-16-le"))
     arg = b64
     q = r.choice([b"", b"", b"'", b'"'])
